@@ -37,6 +37,17 @@ pub struct JEmitter<'r> {
 
 const NONASCII: &[&str] = &["é", "ü", "€", "Ω", "中", "𝄞", "😀", "ß"];
 
+/// (kind, spelled `val`) at and beyond the edges of the kinds
+const EDGE_JSON: &[(&str, &str)] = &[
+    ("date", "\"0000-01-01\""), ("date", "\"9999-12-31\""), ("date", "\"2020-02-29\""), ("date", "\"2021-02-29\""), ("date", "\"2021-13-01\""), ("date", "\"10000-01-01\""), ("date", "\"\""), ("date", "20210101"),
+    ("time", "\"24:00:00\""), ("time", "\"23:59:60\""), ("time", "\"23:59:59.999999999\""), ("time", "\"12:00:00.9999999999\""), ("time", "\"7:05:00\""), ("time", "\"12:34\""), ("time", "\"00:00:00.\""),
+    ("dateTime", "\"2021-06-07T23:59:60Z\""), ("dateTime", "\"2021-06-07T12:00:00+14:00\""), ("dateTime", "\"2021-06-07T12:00:00-12:00\""), ("dateTime", "\"2021-06-07T12:00:00+05:45\""), ("dateTime", "\"2021-06-07T12:00:00+24:00\""),
+    ("dateTime", "\"2021-03-14T02:30:00-05:00\""), ("dateTime", "\"2021-11-07T01:30:00-04:00\""), ("dateTime", "\"2021-11-07T01:30:00-05:00\""), ("dateTime", "\"1883-11-18T12:00:00-05:00\""), ("dateTime", "\"2021-06-07T12:00:00.123456789Z\""),
+    ("dateTime", "\"2021-06-07T12:00:00\""), ("dateTime", "\"2021-06-07 12:00:00Z\""), ("dateTime", "\"2021-06-07T12:00:00-00:00\""), ("dateTime", "\"2021-06-07T12:00:00+01:00\""),
+    ("number", "1e308"), ("number", "1.7976931348623157e308"), ("number", "4.9e-324"), ("number", "1e-400"), ("number", "\"INF\""), ("number", "\"-INF\""), ("number", "\"NaN\""), ("number", "\"1\""), ("number", "18446744073709551616"), ("number", "-9223372036854775809"),
+    ("coord", "1"), ("xstr", "\"v\""), ("uri", "\"\""), ("symbol", "\"\""), ("ref", "\"\""), ("ref", "\"a b\""), ("symbol", "\"a b\""),
+];
+
 impl<'r> JEmitter<'r> {
     fn ws(&mut self) {
         if self.rng.chance(self.cfg.p_space, 1000) {
@@ -156,6 +167,19 @@ impl<'r> JEmitter<'r> {
     }
 
     pub fn scalar(&mut self) {
+        if self.cfg.exotic && self.rng.chance(1, 16) {
+            // scalars at and beyond the edges of their kinds (accepted or not)
+            let (kind, val) = *self.rng.pick(EDGE_JSON);
+            let mut m = vec![("_kind".to_string(), format!("\"{kind}\"")), ("val".to_string(), val.to_string())];
+            if kind == "dateTime" && self.rng.chance(1, 2) {
+                let tz = *self.rng.pick(&["New_York", "UTC", "Kathmandu", "Kiritimati", "GMT+12", "Etc/GMT-1", "Nowhere", "", "Z"]);
+                m.push(("tz".into(), format!("\"{tz}\"")));
+            }
+            if kind == "number" && self.rng.chance(1, 3) {
+                m.push(("unit".into(), "\"kW\"".into()));
+            }
+            return self.object(m);
+        }
         match self.rng.weighted(&[2, 2, 8, 8, 2, 1, 1, 4, 3, 3, 3, 3, 3, 3, 2, 2]) {
             0 => self.out.push_str("null"),
             1 => {
